@@ -877,7 +877,7 @@ impl Property for C06 {
     }
 
     fn work_factor(&self) -> Option<u64> {
-        Some(256)
+        Some(64)
     }
     fn rule(&self) -> String {
         "Each run draws a pattern (dewey one/two-bound, glob, alternate, plain), a multiset of 2..9 candidate names \
